@@ -28,7 +28,7 @@ ASSUMPTIONS = [
     "learning-rate effect is read from param_groups of the optimizer objects the agent holds after the call",
 ]
 REQUIRED_COUNTERS = ["mutations_checked", "other_agents_unchanged_checks", "lr_group_checks", "variates_recorded"]
-CASE_TIMEOUT_S = 300
+CASE_TIMEOUT_S = 1500
 
 
 def preload():
